@@ -512,6 +512,8 @@ impl FileId {
     #[allow(clippy::new_without_default)]
     pub fn new() -> Self {
         loop {
+            #[cfg(apollographql_apollo_rs_verif)]
+            verif_hooks::schedule_point();
             let id = NEXT.fetch_add(1, atomic::Ordering::AcqRel);
             if id & TAG == 0 {
                 return Self {
@@ -534,6 +536,8 @@ impl FileId {
     /// All tests in the process must use `#[serial_test::serial]`
     #[doc(hidden)]
     pub fn reset() {
+        #[cfg(apollographql_apollo_rs_verif)]
+        verif_hooks::schedule_point();
         NEXT.store(INITIAL, atomic::Ordering::Release)
     }
 
@@ -545,6 +549,51 @@ impl FileId {
         } else {
             panic!()
         }
+    }
+}
+
+/// Verification hooks (only with `--cfg apollographql_apollo_rs_verif`): a schedule point in
+/// front of every atomic operation on the file id counter, so that an external scheduler
+/// (e.g. shuttle) owns the interleaving of concurrent `FileId::new` calls, plus access to the
+/// counter so a test can start close to the 63-bit wrap-around.
+#[cfg(apollographql_apollo_rs_verif)]
+#[doc(hidden)]
+pub mod verif_hooks {
+    use std::sync::atomic::Ordering;
+    use std::sync::RwLock;
+
+    static SCHEDULE_POINT: RwLock<Option<fn()>> = RwLock::new(None);
+
+    /// Install (or remove) the callback invoked before each atomic operation on the counter.
+    pub fn set_schedule_point(f: Option<fn()>) {
+        *SCHEDULE_POINT.write().unwrap() = f;
+    }
+
+    pub(super) fn schedule_point() {
+        let f = *SCHEDULE_POINT.read().unwrap();
+        if let Some(f) = f {
+            f()
+        }
+    }
+
+    /// Set the value the next `FileId::new()` will try.
+    pub fn preset_next_file_id(value: u64) {
+        super::NEXT.store(value, Ordering::SeqCst)
+    }
+
+    pub fn peek_next_file_id() -> u64 {
+        super::NEXT.load(Ordering::SeqCst)
+    }
+
+    /// `TaggedFileId::pack` then `tag()` / `file_id()`, for any 63-bit non-zero id.
+    pub fn pack_unpack(tag: bool, id: u64) -> Option<(bool, u64)> {
+        let id = std::num::NonZeroU64::new(id & super::ID_MASK)?;
+        let packed = super::TaggedFileId::pack(tag, super::FileId { id });
+        Some((packed.tag(), packed.file_id().id.get()))
+    }
+
+    pub fn file_id_value(id: super::FileId) -> u64 {
+        id.id.get()
     }
 }
 
